@@ -176,7 +176,7 @@ func cmdCheck(args []string) int {
 	seed := fs.Int("seed", 0, "")
 	fs.Parse(args)
 	t0 := time.Now()
-	timeout := 10000
+	timeout := 20000
 	agree := false
 	if *tier == "thorough" {
 		timeout = 60000
